@@ -124,7 +124,10 @@ type Evaluator struct {
 	lists     map[int]*ListV
 	fieldMemo map[string]Val
 	busyField map[string]bool
+	busyEdge  map[edgeKey]bool // branch conditions under evaluation (a condition that depends on itself through a cell is left undecided)
 	MaxDepth  int
+	foreign   int // nested activations of functions of other packages
+	active    map[*ssa.Function]int // activations being summarised (recursion bound)
 }
 
 func NewEvaluator(w *World, role string) *Evaluator {
@@ -739,7 +742,16 @@ func (x *Evaluator) edgeLive(pred, blk *ssa.BasicBlock, e *env) bool {
 	if pred.Succs[0] == pred.Succs[1] {
 		return true
 	}
+	if x.busyEdge == nil {
+		x.busyEdge = map[edgeKey]bool{}
+	}
+	k := edgeKey{ifi, e}
+	if x.busyEdge[k] {
+		return true
+	}
+	x.busyEdge[k] = true
 	bv, ok := x.eval(ifi.Cond, e).(BoolV)
+	delete(x.busyEdge, k)
 	if !ok || bv.Const == nil {
 		return true
 	}
@@ -747,6 +759,11 @@ func (x *Evaluator) edgeLive(pred, blk *ssa.BasicBlock, e *env) bool {
 		return pred.Succs[0] == blk
 	}
 	return pred.Succs[1] == blk
+}
+
+type edgeKey struct {
+	ifi *ssa.If
+	e   *env
 }
 
 type selfPart struct{ phi ssa.Value }
@@ -1419,7 +1436,14 @@ func (x *Evaluator) evalFieldRead(a *ssa.FieldAddr, t types.Type, e *env, c *eva
 			if fa, ok := r.(*ssa.FieldAddr); ok && fa.Field == a.Field && fa != a {
 				for _, rr := range *fa.Referrers() {
 					if st, ok := rr.(*ssa.Store); ok && st.Addr == fa {
-						return x.evalC(st.Val, e, c)
+						// (a field that is rewritten from its own value: f = append(f, …))
+						if c.busy[fa] {
+							continue
+						}
+						c.busy[fa] = true
+						val := x.evalC(st.Val, e, c)
+						delete(c.busy, fa)
+						return val
 					}
 				}
 			}
